@@ -40,17 +40,31 @@ def itemStep (ap : Path → Option DepMeta) (mp : MsgMap) (fuel : Nat) (Y : Path
   | some src => some [src]
   | none => scanDeps ap mp fuel Y
 
-theorem scanItems_eq (ap : Path → Option DepMeta) (mp : MsgMap) (fuel : Nat) (lvl : Path) (its : List Path) :
-    scanItems ap mp fuel lvl its = seqCat (itemStep ap mp fuel) (its.map fun it => rel2abs it lvl) := by
+/-- … in the loop of `scan_deps`: an entry that resolves to the scanned path itself is skipped -/
+def itemStepS (ap : Path → Option DepMeta) (mp : MsgMap) (fuel : Nat) (start Y : Path) : Option (List Nat) :=
+  if Y = start then some [] else itemStep ap mp fuel Y
+
+theorem seqCat_skip {α : Type} [DecidableEq α] (f : α → Option (List Nat)) (x : α) (l : List α) :
+    seqCat (fun a => if a = x then some [] else f a) l = seqCat f (l.filter fun a => decide (a ≠ x)) := by
+  induction l with
+  | nil => rfl
+  | cons a r ih =>
+    by_cases h : a = x
+    · simp only [seqCat, ih, h, if_true, cat2_nil_left, List.filter_cons, ne_eq, not_true_eq_false,
+        decide_false, Bool.false_eq_true, if_false]
+    · simp only [seqCat, ih, h, if_false, List.filter_cons, ne_eq, not_false_eq_true, decide_true, if_true]
+
+theorem scanItems_eq (ap : Path → Option DepMeta) (mp : MsgMap) (fuel : Nat) (start lvl : Path) (its : List Path) :
+    scanItems ap mp fuel start lvl its = seqCat (itemStepS ap mp fuel start) (its.map fun it => rel2abs it lvl) := by
   induction its with
   | nil => simp [scanItems, seqCat]
   | cons it its ih =>
     rw [scanItems, ih]
-    simp only [List.map_cons, seqCat, itemStep]
+    simp only [List.map_cons, seqCat, itemStepS, itemStep]
     rfl
 
-theorem scanKeys_eq (ap : Path → Option DepMeta) (mp : MsgMap) (fuel : Nat) (lvl : Path) (ks : List (Option Path)) :
-    scanKeys ap mp fuel lvl ks = seqCat (itemStep ap mp fuel)
+theorem scanKeys_eq (ap : Path → Option DepMeta) (mp : MsgMap) (fuel : Nat) (start lvl : Path) (ks : List (Option Path)) :
+    scanKeys ap mp fuel start lvl ks = seqCat (itemStepS ap mp fuel start)
       ((ks.filterMap id).flatMap fun v => (depItems v).map fun it => rel2abs it lvl) := by
   induction ks with
   | nil => simp [scanKeys, seqCat]
@@ -78,35 +92,38 @@ theorem lvlArgs_eq (X : Path) : lvlArgs X = lvlPairs (levels (X.length + 1) X) f
   | nil => rfl
   | cons l r => simp [lvlPairs, lvlPairs_true]
 
-/-- the references found at one level -/
-def refsAt (ap : Path → Option DepMeta) (la : Path × Path) : List Path :=
-  match ap la.2 with
-  | none => []
-  | some m => (m.keys.filterMap id).flatMap fun v => (depItems v).map fun it => rel2abs it la.1
+theorem optCat_eq (a b : Option (List Nat)) : optCat a b = cat2 a b := by
+  cases a <;> cases b <;> rfl
 
-theorem scanLevels_eq (ap : Path → Option DepMeta) (mp : MsgMap) (fuel : Nat) (lvls : List Path) (parent : Bool) :
-    scanLevels ap mp fuel lvls parent =
-      seqCat (itemStep ap mp fuel) ((lvlPairs lvls parent).flatMap (refsAt ap)) := by
+theorem scanLevels_eq (ap : Path → Option DepMeta) (mp : MsgMap) (fuel : Nat) (start : Path) (lvls : List Path)
+    (parent : Bool) :
+    scanLevels ap mp fuel start lvls parent =
+      seqCat (itemStepS ap mp fuel start) ((lvlPairs lvls parent).flatMap (refsAt ap)) := by
   induction lvls generalizing parent with
   | nil => simp [scanLevels, lvlPairs, seqCat]
   | cons l r ih =>
-    rw [scanLevels, ih]
-    simp only [lvlPairs, List.flatMap_cons, seqCat_append, refsAt]
-    cases ap (if parent = true then l ++ ['/'] else l) with
-    | none => simp [seqCat]; rfl
-    | some m => simp only [scanKeys_eq]; rfl
+    rw [scanLevels, ih, optCat_eq, optCat_eq]
+    simp only [lvlPairs, List.flatMap_cons, seqCat_append, refsAt, metaRefs]
+    congr 1
+    congr 1
+    · cases ap (if parent = true then l ++ ['/'] else l) with
+      | none => simp [seqCat]
+      | some m => simp only [scanKeys_eq]
+    · cases selfMeta ap l with
+      | none => simp [seqCat]
+      | some m => simp only [scanKeys_eq]
 
-theorem refsOf_eq (ap : Path → Option DepMeta) (X : Path) :
-    refsOf ap X = (lvlPairs (levels (X.length + 1) X) false).flatMap (refsAt ap) := by
-  unfold refsOf
+theorem rawRefs_eq (ap : Path → Option DepMeta) (X : Path) :
+    rawRefs ap X = (lvlPairs (levels (X.length + 1) X) false).flatMap (refsAt ap) := by
+  unfold rawRefs
   rw [lvlArgs_eq]
-  rfl
 
 /-- one step of the scan: the references of `X`, each a source or scanned in turn -/
 theorem scanDeps_succ (ap : Path → Option DepMeta) (mp : MsgMap) (fuel : Nat) (X : Path) :
     scanDeps ap mp (fuel + 1) X = seqCat (itemStep ap mp fuel) (refsOf ap X) := by
-  rw [scanDeps, scanLevels_eq, refsOf_eq]
-
+  rw [scanDeps, scanLevels_eq, ← rawRefs_eq]
+  unfold refsOf itemStepS
+  exact seqCat_skip (itemStep ap mp fuel) X (rawRefs ap X)
 
 /-! ### G1: the scan returns exactly the sources -/
 
